@@ -138,7 +138,7 @@ def run(ctx, prop):
     if quick:
         tr = generate(ctx, "ExprGenEx1.cfg", "ex1", stride=8, thresholds=(0,))
         tr += generate(ctx, "ExprGenSim_small.cfg", "simsmall", simulate="num=24", depth=9, thresholds=(0, 4))
-        tr += generate(ctx, "ExprGenMap.cfg", "map", stride=5, thresholds=(0,))
+        tr += generate(ctx, "ExprGenMap.cfg", "map", stride=2, thresholds=(0,))
         validate(ctx, tr, prop, "small")
         tb = generate(ctx, "ExprGenSim_big.cfg", "simbig", simulate="num=8", depth=8, thresholds=(0, 6))
         validate(ctx, tb, prop, "big")
@@ -148,7 +148,8 @@ def run(ctx, prop):
         tr = generate(ctx, "ExprGenEx2.cfg", "ex2", stride=12, thresholds=(0,))
         validate(ctx, tr, prop, "ex2")
         tr = generate(ctx, "ExprGenMap.cfg", "map", thresholds=(0,))
-        tr += generate(ctx, "ExprGenMap2.cfg", "map2", stride=16, thresholds=(0,))
+        tr += generate(ctx, "ExprGenMap6.cfg", "map6", stride=4, thresholds=(0,))
+        tr += generate(ctx, "ExprGenMap2.cfg", "map2", stride=64, thresholds=(0,))
         validate(ctx, tr, prop, "map")
         tr = generate(ctx, "ExprGenSim_small.cfg", "simsmall", simulate="num=1500", depth=9, thresholds=(0, 4))
         validate(ctx, tr, prop, "small")
